@@ -150,6 +150,7 @@ pub fn generate(seed: u64, n: usize, _thorough: bool, _corpus: Option<&str>) -> 
         if i % 2 == 0 { if let Some(c) = eval_probe(&mut r) { out.push(c); } }
         if i % 2 == 1 { out.push(continuous_doors(&mut r)); }
         out.extend(history_cases(&mut r));
+        out.push(pipe_case(&mut r));
     }
     out
 }
@@ -216,7 +217,11 @@ fn continuous_doors(r: &mut Rng) -> Case {
         std::panic::catch_unwind(std::panic::AssertUnwindSafe(|| f())).unwrap_or(("(panic)".to_string(), None))
     };
     let mut bopt = Some(b);
-    let o_builder = guard(&mut || match bopt.take().unwrap().solve_with(Clarabel) { Ok(s) => ("solution".to_string(), Some(s.value())), Err(BuilderError::Solver(e)) => (crate::props::c03::solver_error(&e), None), Err(BuilderError::Linearization(e)) => (crate::props::c01::lin_error(&e), None) });
+    let mut ref_outcome: Option<String> = None;
+    let o_builder = guard(&mut || match bopt.take().unwrap().solve_with(Clarabel) { Ok(s) => {
+            let asg = s.solution().assignment().iter().map(|a| format!("({} {})", sx::q(&a.name), sx::num(a.value))).collect::<Vec<_>>().join(" ");
+            ref_outcome = Some(format!("(solution {} (assign{}{}))", sx::num(s.value()), if asg.is_empty() { "" } else { " " }, asg));
+            ("solution".to_string(), Some(s.value())) }, Err(BuilderError::Solver(e)) => (crate::props::c03::solver_error(&e), None), Err(BuilderError::Linearization(e)) => (crate::props::c01::lin_error(&e), None) });
     let o_solver = guard(&mut || match RoocSolver::try_new(text.clone()) {
         Ok(s) => match s.solve_using(rooc::solve_real_lp_problem_clarabel) {
             Ok(sol) => ("solution".to_string(), Some(sol.value())),
@@ -230,7 +235,7 @@ fn continuous_doors(r: &mut Rng) -> Case {
     let runner = PipeRunner::new(vec![Box::new(CompilerPipe::new()), Box::new(PreModelPipe::new()), Box::new(ModelPipe::new()), Box::new(LinearModelPipe::new()), Box::new(RealSolver::new())]);
     let o_pipe = guard(&mut || match runner.run(PipeableData::String(text.clone()), &PipeContext::new(vec![], &fns)) {
         Ok(mut res) => match res.pop() { Some(PipeableData::RealSolution(sol)) => ("solution".to_string(), Some(sol.value())), _ => ("(pipe-no-solution)".into(), None) },
-        Err((e, _)) => { let s = format!("{:?}", e); (if s.contains("Infeasible") { "(infeasible)".into() } else if s.contains("Unbounded") { "(unbounded)".into() } else { format!("(pipe-error {})", sx::q(&s.chars().take(60).collect::<String>())) }, None) }
+        Err((e, _)) => { (match &e { rooc::pipe::PipeError::SolverError(se) => crate::props::c03::solver_error(se), other => { let s = format!("{:?}", other); format!("(pipe-error {})", sx::q(&s.chars().take(60).collect::<String>())) } }, None) }
     });
     let o_direct = guard(&mut || RoocParser::new(text.clone()).parse_and_transform(vec![], &fns).ok().and_then(|tm| Linearizer::linearize(tm).ok())
         .map(|lm| real_outcome(rooc::solve_real_lp_problem_clarabel(&lm))).unwrap_or(("(compile-error)".into(), None)));
@@ -238,6 +243,12 @@ fn continuous_doors(r: &mut Rng) -> Case {
     c.show = text.replace('\n', " ; ");
     c.imp = format!("(real-doors (builder {} {:?}) (roocsolver {} {:?}) (pipe {} {:?}) (direct {} {:?}))", o_builder.0, o_builder.1, o_solver.0, o_solver.1, o_pipe.0, o_pipe.1, o_direct.0, o_direct.1);
     c.tags = vec!["real-doors".into(), o_direct.0.trim_start_matches('(').split(|ch| ch == ' ' || ch == ')').next().unwrap_or("").to_string()];
+    // the builder door's answer is also judged by the mixed reference (no discrete declaration: one residual LP, solved by
+    // independent vertex enumeration; non-affine models are skipped there)
+    if o_builder.0 == "solution" || o_builder.0 == "(infeasible)" {
+        let outcome = if o_builder.0 == "solution" { ref_outcome.clone().unwrap_or_default() } else { "(infeasible)".to_string() };
+        if !outcome.is_empty() { c.oracle = format!("ref {} {}", sx::model(&text_model.clone().mark_all()), outcome); c.tags.push("real-doors-judged".into()); }
+    }
     c.nontrivial = o_direct.0 == "solution" || o_direct.0 == "(infeasible)";
     let all = [&o_builder, &o_solver, &o_pipe, &o_direct];
     if all.iter().any(|o| o.0 == "(panic)") {
@@ -245,6 +256,9 @@ fn continuous_doors(r: &mut Rng) -> Case {
         c.sig = Some(if text_model.domain().values().all(|d| !d.is_used()) { "clarabel-panic-no-variables".into() } else { "clarabel-panic".into() });
     } else if all.iter().any(|o| o.0 != o_direct.0) {
         c.impl_violation = Some(format!("real-solver front doors disagree on the verdict: {}", c.imp));
+        // root cause flag: Clarabel gives up with `Numerical error` on one door's LP and proves infeasibility on the other's
+        // (the builder keeps declared-but-unused variables as extra columns, which changes Clarabel's numerics)
+        if all.iter().all(|o| o.0 == "(infeasible)" || o.0.contains("Numerical error")) { c.sig = Some("clarabel-numerical-error-on-infeasible".into()); }
     } else if !matches!(m.objective().objective_type, OptimizationType::Satisfy) {
         if let Some(v) = o_direct.1 {
             if all.iter().any(|o| o.1.map(|w| (w - v).abs() > 1e-5 * v.abs().max(1.0)).unwrap_or(true)) {
@@ -701,4 +715,82 @@ fn history_cases(r: &mut Rng) -> Vec<Case> {
         }
     }
     cases
+}
+
+// ======================================================================================================
+// the staged PIPE RUNNER with arbitrary (also ill-typed) sequences of the eleven built-in pipes: which results were
+// accumulated, where the run stopped and with which `PipeError` (tag mismatch `InvalidData { expected, got }` or the
+// pipe's own failure wrapped in its variant).  The Lean model (`Rooc/Pipes.lean`) knows the typing table of the pipes
+// and `run_pipe`; the position of a failing stage FUNCTION is handed to it.
+
+use rooc::pipe::{PipeError, Pipeable, StandardLinearModelPipe, StepByStepSimplexPipe, TableauPipe};
+
+fn pipe_case(r: &mut Rng) -> Case {
+    let names = ["CompilerPipe", "PreModelPipe", "ModelPipe", "LinearModelPipe", "StandardLinearModelPipe", "TableauPipe",
+                 "RealSolver", "StepByStepSimplexPipe", "MILPSolverPipe", "AutoSolverPipe"];
+    let make = |n: &str| -> Box<dyn Pipeable> { match n {
+        "CompilerPipe" => Box::new(CompilerPipe::new()), "PreModelPipe" => Box::new(PreModelPipe::new()), "ModelPipe" => Box::new(ModelPipe::new()),
+        "LinearModelPipe" => Box::new(LinearModelPipe::new()), "StandardLinearModelPipe" => Box::new(StandardLinearModelPipe::new()),
+        "TableauPipe" => Box::new(TableauPipe::new()), "RealSolver" => Box::new(RealSolver::new()),
+        "StepByStepSimplexPipe" => Box::new(StepByStepSimplexPipe::new()),
+        "MILPSolverPipe" => Box::new(MILPSolverPipe::new()), _ => Box::new(AutoSolverPipe::new()) } };
+    // what follows what in a well-typed chain
+    let next_ok = |last: &str| -> Vec<&'static str> { match last {
+        "" => vec!["CompilerPipe"], "CompilerPipe" => vec!["PreModelPipe"], "PreModelPipe" => vec!["ModelPipe"], "ModelPipe" => vec!["LinearModelPipe"],
+        "LinearModelPipe" => vec!["StandardLinearModelPipe", "RealSolver", "MILPSolverPipe", "AutoSolverPipe"],
+        "StandardLinearModelPipe" => vec!["TableauPipe"], "TableauPipe" => vec!["StepByStepSimplexPipe"], _ => vec![] } };
+    let n = r.below(8);
+    let mut seq: Vec<&str> = vec![];
+    // one run in four: the whole step-by-step simplex preset
+    if r.chance(1, 4) { seq = vec!["CompilerPipe", "PreModelPipe", "ModelPipe", "LinearModelPipe", "StandardLinearModelPipe", "TableauPipe", "StepByStepSimplexPipe"]; }
+    for _ in 0..(if seq.is_empty() { n } else { r.below(2) }) {
+        let ok = next_ok(seq.last().copied().unwrap_or(""));
+        if !ok.is_empty() && r.chance(5, 6) { seq.push(*r.pick(&ok)); } else { seq.push(*r.pick(&names)); }
+    }
+    // sources: fine (continuous so that the simplex pipes apply / discrete), a syntax error, an undeclared variable, a product
+    let texts = [
+        "max x + y\ns.t.\n    c: x + 2 * y <= 4\n    d: x <= 3\ndefine\n    x as NonNegativeReal\n    y as NonNegativeReal",
+        "min x\ns.t.\n    c: x + y >= 1\ndefine\n    x as Boolean\n    y as IntegerRange(0, 2)",
+        "max x +\ns.t.\n    c: <= 4",
+        "max x\ns.t.\n    c: x + q <= 4\ndefine\n    x as Boolean",
+        "max x * y\ns.t.\n    c: x + y <= 4\ndefine\n    x as NonNegativeReal\n    y as NonNegativeReal",
+        "max x\ns.t.\n    c: x >= 1\ndefine\n    x as NonNegativeReal",
+        "min x\ns.t.\n    c: x >= 2\n    d: x <= 1\ndefine\n    x as NonNegativeReal",
+        "min x\ns.t.\n    c: x < 2\ndefine\n    x as NonNegativeReal",
+        "min x + y\ns.t.\n    c: x + y >= 1\ndefine\n    x as Boolean\n    y as NonNegativeReal",
+    ];
+    let ti = r.below(texts.len());
+    let fns = IndexMap::new();
+    let runner = PipeRunner::new(seq.iter().map(|n| make(n)).collect());
+    let res = std::panic::catch_unwind(std::panic::AssertUnwindSafe(|| runner.run(PipeableData::String(texts[ti].to_string()), &PipeContext::new(vec![], &fns))));
+    let ty = |d: &PipeableData| format!("{:?}", d.get_type());
+    let tys = |v: &Vec<PipeableData>| v.iter().map(|d| ty(d)).collect::<Vec<_>>().join(" ");
+    let mut c = Case::default();
+    c.show = format!("PipeRunner [{}] on text #{}", seq.join(", "), ti);
+    c.tags = vec!["pipe-runner".into()];
+    c.nontrivial = !seq.is_empty();
+    let mut fail = "none".to_string();
+    match res {
+        Err(_) => { c.impl_violation = Some(format!("PipeRunner panicked: {}", c.show)); c.imp = "(panic)".into(); }
+        Ok(Ok(rs)) => { c.imp = format!("(ok {})", tys(&rs)); c.tags.push("pipe-ok".into()); }
+        Ok(Err((e, rs))) => {
+            let ev = match &e {
+                PipeError::InvalidData { expected, got } => { c.tags.push("pipe-invalid-data".into()); format!("(invalid-data {:?} {:?})", expected, got) }
+                other => {
+                    fail = format!("(fail {})", rs.len() - 1);
+                    let v = match other {
+                        PipeError::EmptyPipeData => "EmptyPipeData", PipeError::CompilationError { .. } => "CompilationError", PipeError::TransformError { .. } => "TransformError",
+                        PipeError::LinearizationError(_) => "LinearizationError", PipeError::StandardizationError(_) => "StandardizationError",
+                        PipeError::CanonicalizationError(_) => "CanonicalizationError", PipeError::StepByStepSimplexError(..) => "StepByStepSimplexError",
+                        PipeError::SolverError(_) => "SolverError", PipeError::Other(_) => "Other", PipeError::InvalidData { .. } => unreachable!(),
+                    };
+                    c.tags.push(format!("pipe-{}", v));
+                    format!("(stage {})", v)
+                }
+            };
+            c.imp = format!("(err {} (results {}))", ev, tys(&rs));
+        }
+    }
+    c.req = format!("run-pipe (pipes{}{}) String {}", if seq.is_empty() { "" } else { " " }, seq.join(" "), fail);
+    c
 }
